@@ -141,7 +141,7 @@ pub fn c09(ctx: &mut Ctx, tier: &str, r: &mut Rng, js: &[Value], reqs: &[String]
         ctx.finish(json!({}));
         return;
     }
-    let n = if tier == "thorough" { 6000 } else { 260 };
+    let n = sz!(tier, 260, 6000);
     let angle_methods = [Method::Egyptian, Method::Egypt, Method::Shafi, Method::Hanafi, Method::Isna, Method::Mwl];
     for i in 0..n {
         let mut p = Params::new(r.pick(&angle_methods));
